@@ -1,0 +1,21 @@
+//go:build verif
+
+package hermes
+
+// Exported wrappers for the verification harness (harvest branch of Nitro, property C07). Add-only.
+
+// VerifResid exposes resid: the N of the harvested crop that stays on the field as residues
+// (above-ground DGM = NSA + NLA = NRESID, roots DGU = NUSA + NULA) and ln.NAGB.
+func VerifResid(g *GlobalVarsMain, ln *NitroBBBSharedVars, hPath *HFilePath) (NDI, NSA, NLA, NUSA, NULA, NRESID float64) {
+	return resid(g, ln, hPath)
+}
+
+// VerifPinit exposes pinit: the reset of the crop state of a non-permanent crop after harvest.
+func VerifPinit(g *GlobalVarsMain) { pinit(g) }
+
+// VerifDetachOutputs removes the management-event writer from a COPY of a run state, so that driving
+// Nitro on the copy cannot write into the run's management file.
+func (g *GlobalVarsMain) VerifDetachOutputs() { g.managementConfig = nil }
+
+// VerifCropNPath builds a file path set whose crop-N table (CROP_N.TXT) is the given file.
+func VerifCropNPath(cropn string) *HFilePath { return &HFilePath{cropn: cropn} }
